@@ -185,6 +185,15 @@ pub fn gen_byods<R: Src>(r: &mut R, _cfg: &GenCfg, ds: Ds, ternary: bool) -> Pro
          vec![cl("probe", vec![av("x")]), BodyItem::Agg { pat: Pat::Var("n".into()), agg: Aggregator::Count, bound: vec![], rel: "rr".into(), args }],
       ));
    }
+   if r.chance(50) && !key_bound_only {
+      // the same census through the last column (reverse index)
+      p.rels.push(rel("cntr", vec![T, Ty::I32], false));
+      let args = if ternary { vec![Arg::Wild, Arg::Wild, av("x")] } else { vec![Arg::Wild, av("x")] };
+      p.rules.push(rule(
+         vec![hd("cntr", vec![v("x"), Expr::Cast(Box::new(v("n")), Ty::I32)])],
+         vec![cl("probe", vec![av("x")]), BodyItem::Agg { pat: Pat::Var("n".into()), agg: Aggregator::Count, bound: vec![], rel: "rr".into(), args }],
+      ));
+   }
    r.shuffle(&mut p.rules);
    p
 }
